@@ -1107,9 +1107,9 @@ impl TransactionBuilder {
         let mut self_copy = self.clone();
 
         // we need some value for these for it to be a a valid transaction
-        // but since we're only calculating the difference between the fee of two transactions
-        // it doesn't matter what these are set as, since it cancels out
-        self_copy.set_final_fee(BigNum::zero());
+        // the same placeholder as in min_fee(): under set_min_fee the two estimates are raised to the requested fee
+        // before they are subtracted, so the placeholder cancels out only if it is the one min_fee() uses
+        self_copy.set_final_fee((0x1_00_00_00_00u64).into());
 
         let fee_before = min_fee(&self_copy)?;
         let aligned_fee_before = self.fee_request.get_new_fee(fee_before);
